@@ -118,7 +118,15 @@ impl ScriptedDriver for Drv {
       self.deliver_arrivals();
       match self.sched.pop_front() {
         Some(Lbl::ReadK) | Some(Lbl::ReadT) => continue,
-        Some(Lbl::PollIntr) if self.intr_ok => { self.intr_ok = false; answer = VPoll::Interrupted; break; },
+        Some(Lbl::PollIntr) if self.intr_ok => {
+          self.intr_ok = false;
+          // a signal arrives in the middle of a timed wait (only in the runs that really sleep): half of the time-out has gone by when the wait is cut short
+          if let Some(t) = timeout {
+            let mode = if self.sleep.is_empty() { "no".to_string() } else { self.sleep[std::cmp::min(self.nsleep, self.sleep.len() - 1)].clone() };
+            if mode != "no" && t <= Duration::from_millis(60) { std::thread::sleep(t / 2); }
+          }
+          answer = VPoll::Interrupted; break;
+        },
         Some(Lbl::PollIntr) => continue,
         Some(Lbl::PollTimeout) if !(self.k_ready || self.t_ready) => {
           if let Some(t) = timeout {
